@@ -75,6 +75,12 @@ func (ds *Storage) readBlobs(ctx context.Context, opts readBlobRequest) error {
 		f := newFuture(func() (os.FileInfo, error) {
 			fi, err := ds.fs.Stat(fullFile)
 			if err != nil {
+				if os.IsNotExist(err) {
+					// The entry vanished since the directory was read: a
+					// temporary file renamed into place by a concurrent
+					// receive, or a blob removed concurrently.
+					return nil, os.ErrNotExist
+				}
 				return nil, &enumerateError{"stat", err}
 			}
 			return fi, nil
@@ -106,6 +112,9 @@ func (ds *Storage) readBlobs(ctx context.Context, opts readBlobRequest) error {
 		isDir := isShardDir(name)
 		if !isDir {
 			fi, err := stat[name].Get()
+			if err == os.ErrNotExist {
+				continue
+			}
 			if err != nil {
 				return err
 			}
